@@ -182,7 +182,27 @@ def case_single_col_filter():
     return "cubeset", [r0, r1], [{}, {}], 0, 0
 
 
-CASES = [case_cat_x_mr, case_mr_x_cat_sorted, case_3d_cat_mr_mr, case_3d_mr_cat_cat, case_ca, case_numarr,
+def case_strand_with_difference():
+    sch = Schema("cat_1d", [S.cat("a", 3, "mid", values=[1, 2, 3])], [("cat", 0)], weighted=True)
+    data = [((1 + i % 3,), 1 + i % 2, None) for i in range(5)]
+    t = {"rows_dimension": {"insertions": [
+        {"function": "subtotal", "name": "top2", "anchor": "top", "kwargs": {"positive": [1, 2]}},
+        {"function": "subtotal", "name": "d3_1", "anchor": 3, "kwargs": {"positive": [3], "negative": [1]}}]}}
+    return "cube", [tabulate(sch, data)], [t], 1000, 1
+
+
+def case_slice_idless_insertions():
+    sch = S.schema2("cat3_x_cat2", S.cat("a", 3, "last", values=[1, None, 3]), B2, weighted=True)
+    data = [((1 + i % 3, 1 + (i // 2) % 2), 1 + i % 2, None) for i in range(6)]
+    t = {"rows_dimension": {"insertions": [
+        {"function": "subtotal", "name": "only1", "anchor": "top", "kwargs": {"positive": [1]}},
+        {"function": "subtotal", "name": "two3", "anchor": "bottom", "kwargs": {"positive": [2, 3]}},
+        {"function": "subtotal", "name": "d2_3", "anchor": 2, "kwargs": {"positive": [2], "negative": [3]}}]},
+         "columns_dimension": {"order": {"type": "opposing_insertion", "insertion_id": 2, "measure": "row_percent"}}}
+    return "cube", [tabulate(sch, data)], [t], 100, 0
+
+
+CASES = [case_strand_with_difference, case_slice_idless_insertions, case_cat_x_mr, case_mr_x_cat_sorted, case_3d_cat_mr_mr, case_3d_mr_cat_cat, case_ca, case_numarr,
          case_datetime, case_cat_view_insertions, case_json_text, case_tabbook, case_numeric_summary,
          case_ca_as_0th, case_single_col_filter]
 SCHEMAS = {}
@@ -282,6 +302,21 @@ class World:
             return Cube(resps[0], transforms=self.ts[0], population=self.pop, mask_size=self.mb)
         return CubeSet(resps, self.ts, self.pop, self.mb)
 
+    def alt_response(self):
+        """another response for the same query: the first valid category of the rows dimension is
+        flagged missing (so some insertions lose their terms / become invalid)"""
+        r = self.resps[0]
+        r = copy.deepcopy(json.loads(r) if isinstance(r, str) else r)
+        dims = r["result"]["dimensions"]
+        for d in dims:
+            cats = d["type"].get("categories")
+            if cats and not d.get("references", {}).get("subreferences"):
+                for c in cats:
+                    if not c.get("missing"):
+                        c["missing"] = True
+                        return r
+        return r
+
     def parts(self, root=None):
         root = root or self.root
         if self.kind == "cube":
@@ -343,9 +378,28 @@ def standalone_table(world, i):
     return tab
 
 
+def alt_table(world, transforms):
+    tab = {}
+    try:
+        c = Cube(world.alt_response(), transforms=transforms, population=world.pop, mask_size=world.mb)
+        parts = c.partitions
+        tab[("alt", "n_partitions")] = ("ok", repr(len(parts)))
+        for k, p in enumerate(parts):
+            for n, a in CUBE_PROBES + [("row_codes", None), ("row_order", (ORDER_FORMAT.BOGUS_IDS,)),
+                                       ("column_order", ()), ("table_proportions", None)]:
+                if hasattr(type(p), n):
+                    tab[("alt", k, n, a)] = do_read(p, n, a)
+    except Exception as e:
+        tab[("alt", "raises")] = ("exc", type(e).__name__)
+    return tab
+
+
 def reference(case_idx):
     if case_idx not in _REF:
         w = World(case_idx)
+        if w.kind == "cube":
+            w0 = World(case_idx)
+            _REF[("alt", case_idx)] = alt_table(w0, w0.ts[0])
         if w.kind == "cubeset":
             sa = {}
             for i in range(len(w.resps)):
@@ -379,6 +433,8 @@ def alphabet(case_idx, tier):
     if kind == "cubeset":
         for i in range(len(CASES[case_idx]()[1])):
             ev.append(("new_cube", i))
+    else:
+        ev.append(("new_alt",))
     if tier == "quick" and len(ev) > 70:
         # quick: thin the per-partition reads (every 2nd) but keep root reads and `new`
         roots_ = [e for e in ev if e[0].startswith("new") or e[1] == "root"]
@@ -513,6 +569,16 @@ def check(space, state):
         asserted += 1
         if ev[0] == "new":
             _probe_new(w, ev[1], tab, V, where + " step %d" % step)
+            continue
+        if ev[0] == "new_alt":
+            want = _REF[("alt", ci)]
+            got = alt_table(w, w.ts[0])
+            for k2, o2 in want.items():
+                if got.get(k2) != o2:
+                    V.append(viol("new_alt:%s" % (k2[1] if len(k2) == 2 else k2[2]),
+                                  "%s step %d: a Cube built from ANOTHER response with the same (used) transforms object "
+                                  "reports %r for %r, pristine evaluation gives %r" % (where, step, got.get(k2), k2[1:], o2)))
+                    break
             continue
         if ev[0] == "new_cube":
             want = _REF[("standalone", ci)]
@@ -666,7 +732,7 @@ def run_schedule(ci, reads, first, switch_at):
     return results, SCHED.counter, w, errors
 
 
-SCHED_CASES = [2, 3, 0, 9, 10, 11]      # 3-D cubes sharing a transforms dict, cube sets
+SCHED_CASES = [4, 5, 2, 11, 12, 13]      # 3-D cubes sharing a transforms dict, cube sets
 SCHED_READS = [("counts", None), ("row_labels", None), ("row_order", ()), ("column_index", None),
                ("row_proportions", None), ("column_labels", None)]
 
@@ -732,6 +798,58 @@ def check_sched(state):
     return Res(V, bool(switch_at) and switch_at[0] < n, digest(ci, pi, first, repr(results)), 2 + len(switch_at))
 
 
+def full_alphabet(ci):
+    tab, n_parts, _d, plist = reference(ci)
+    ev = [("r", k[0], k[1], k[2]) for k in tab if k[1] not in ("n_partitions", "partitions")]
+    kind = CASES[ci]()[0]
+    ev += [("new", v) for v in ("same", "json", "envelope")]
+    ev += [("new_alt",)] if kind == "cube" else []
+    return ev
+
+
+def then_read_all_spaces():
+    out = []
+    for ci, fn in enumerate(CASES):
+        n = len(full_alphabet(ci))
+
+        def gen(ci=ci, n=n):
+            for e in range(n):
+                yield ("then_all", ci, e)
+        out.append(Space("then_read_all_" + fn.__name__, [(1, gen)], n,
+                         {"case": fn.__name__, "first_events": n, "then": "every public read of every live object"}))
+    return out
+
+
+def check_then_all(state):
+    _, ci, e = state
+    tab, n_parts, pristine_digest, plist = reference(ci)
+    ev = full_alphabet(ci)[e]
+    w = World(ci)
+    V = []
+    where = "%s: %r then read everything" % (CASES[ci].__name__, ev)
+    if ev[0] == "new":
+        _probe_new(w, ev[1], tab, V, where)
+    elif ev[0] == "new_alt":
+        alt_table(w, w.ts[0])
+    else:
+        _, path, name, args = ev
+        try:
+            _compare(V, tab, (path, name, args), do_read(_locate(w, path), name, args), where)
+        except Exception as exc:
+            V.append(viol("locate:raises", "%s: %s" % (where, exc)))
+    got = full_table(w)
+    n = 0
+    for key, out in got.items():
+        n += 1
+        want = tab.get(key)
+        if want is not None and out != want:
+            V.append(viol("order_dependence:%s" % key[1], "%s: afterwards %r of %r is %r, pristine evaluation gives %r"
+                          % (where, key[1], key[0], out, want), prop=key[1]))
+            if len(V) > 5:
+                break
+    return Res(V, True, digest("then_all", ci, repr(ev)), n)
+
+
 _seq_spaces = spaces
 _seq_check = check
 _seq_detail = detail
@@ -739,6 +857,7 @@ _seq_detail = detail
 
 def spaces(tier):          # noqa: F811
     out = _seq_spaces(tier)
+    out += then_read_all_spaces()
     out += sched_spaces(1 if tier == "quick" else 2) if tier == "thorough" else sched_spaces_quick()
     return out
 
@@ -747,7 +866,7 @@ def sched_spaces_quick():
     """quick tier: preemption bound 1 on the two inputs whose partitions share a rewritten dict"""
     global SCHED_CASES
     keep = SCHED_CASES
-    SCHED_CASES = [2, 9]
+    SCHED_CASES = [4, 11]
     try:
         return sched_spaces(1)
     finally:
@@ -757,10 +876,15 @@ def sched_spaces_quick():
 def check(space, state):          # noqa: F811
     if state and state[0] == "sched":
         return check_sched(state)
+    if state and state[0] == "then_all":
+        return check_then_all(state)
     return _seq_check(space, state)
 
 
 def detail(space, state):          # noqa: F811
+    if state and state[0] == "then_all":
+        return {"case": CASES[state[1]].__name__, "first_event": repr(full_alphabet(state[1])[state[2]]),
+                "then": "read every public output of every live object"}
     if state and state[0] == "sched":
         _, ci, pi, first, switch_at = state
         ra, rb = sched_pairs(ci)[pi]
